@@ -156,7 +156,9 @@ def run(ctx):
         for name, b in wire:
             for via in ('m', 't'):
                 for delay in ((0, 1) if (quick and name.startswith('notif') and via == 't') is False else (rng.below(2),)):
-                    lines.append('FSM %d %d 90 1.1,2.1 %s' % (len(lines), delay, ';'.join(pre + ['%s:%s' % (via, b.hex())])))
+                    # the session's own hold time as well: 0 (no keepalives), 1 and 2 give a keepalive period of 0 s
+                    hold = rng.choice([90, 90, 0, 1, 2, 3])
+                    lines.append('FSM %d %d %d 1.1,2.1 %s' % (len(lines), delay, hold, ';'.join(pre + ['%s:%s' % (via, b.hex())])))
                     meta.append(('wire', st, name, via, delay))
                     n_wire += 1
     path = os.path.join(d, 'cases.txt')
